@@ -50,6 +50,23 @@ fn operand_alphabet(modulus: &[u8]) -> Vec<Vec<u8>> {
             k = (k / 32 + 1) * 32;
         }
     }
+    // values at a distance of one limb boundary from the modulus, and limbs that are all ones
+    let mut k = 32;
+    while k < bits - 8 {
+        let p2 = le_pow2(k, n8);
+        if le_less(&p2, &m) {
+            v.push(le_sub(&m, &p2));
+            v.push(le_sub_small(&le_sub(&m, &p2), 1));
+            let mut ones = vec![0u8; n8];
+            for b in ones.iter_mut().skip(k / 8 - 4).take(4) {
+                *b = 0xff;
+            }
+            if le_less(&ones, &m) {
+                v.push(ones);
+            }
+        }
+        k += 32;
+    }
     // limb patterns
     for pat in [0xffu8, 0xaa, 0x55, 0x80, 0x01] {
         let mut x = vec![pat; n8];
@@ -620,6 +637,25 @@ macro_rules! field_suite {
                     for i in 0..UN.len() {
                         for a in al.iter() {
                             emit_un(out, i, *a);
+                        }
+                    }
+                    emit(out, json!({"k":"reset","build":BUILD}));
+                    // pairs whose exact result sits on a reduction boundary: a + (p - a) = p, a - a = 0,
+                    // a * a^-1 = 1, a * (-a^-1) = p - 1, a + 1, a - 1, through every form of the operator
+                    for (j, a) in al.iter().enumerate() {
+                        let inv = a.inverse().unwrap_or(F::ONE);
+                        for i in 0..BIN.len() {
+                            if (i + j) % 3 != 0 {
+                                continue;
+                            }
+                            let bb = match BIN[i].0 {
+                                "add" => -*a,
+                                "sub" => *a,
+                                "mul" => if j % 2 == 0 { inv } else { -inv },
+                                _ => if j % 2 == 0 { *a } else { -*a },
+                            };
+                            emit_bin(out, i, *a, bb);
+                            emit_bin(out, i, *a, if j % 2 == 0 { F::ONE } else { -F::ONE });
                         }
                     }
                     emit(out, json!({"k":"reset","build":BUILD}));
